@@ -359,7 +359,7 @@ def run_check(prop, spec, tier, seed):
             jobs.append((sc['name'], list(shp), sc.get('limits', {}).get(tier, sc.get('limits', {}).get('quick', {}))))
     nproc = int(os.environ.get('VERIF_JOBS', '16'))
     ctxm = mp.get_context('fork')
-    budget = spec.get('budget_s', {}).get(tier, 600 if tier == 'quick' else 7200)
+    budget = spec.get('budget_s', {}).get(tier, 3000 if tier == 'quick' else 14400)   # a safety net, far above the normal run time
     with ctxm.Pool(nproc) as pool:
         results = explore_all(pool, jobs, time.time() + budget, nproc)
         # differential self-test: native random runs vs concrete interpretation
